@@ -371,41 +371,3 @@ def window_sub_intervals(v, g):
     if cur is not None:
         out.append((cur, None, None))
     return out
-
-
-def release_check(res, v, outputs=False):
-    """C02/C03 clause for handed observables, read directly off the log:
-    (a) once the outer subscription has ended (terminal or dispose) AND every window
-        subscription has ended (terminal received or unsubscribed), no source subscription
-        and no timer of the operator is left open -- from that input on;
-    (b) while the outer subscription is live, or some window subscription is live, the main
-        source (0) stays subscribed unless it terminated itself."""
-    n = len(res["inputs"])
-    ivs = {g: window_sub_intervals(v, g) for g in v["subs"]}
-
-    def live_subs_after(tag):
-        c = 0
-        for g, l in ivs.items():
-            for (a, b, how) in l:
-                # an imm subscription at tag a is live after a; ended at b means not live after b
-                if a <= tag and (b is None or b > tag):
-                    c += 1
-        return c
-    oe = v["outer_end"]
-    src0_done = None
-    for j, (t, i) in enumerate(res["inputs"]):
-        if i[0] == "src" and i[1] == 0 and i[2][0] in "EC" and src0_done is None:
-            src0_done = j + 1
-    for st in v["steps"]:
-        tag = st["tag"]
-        outer_live = (not outputs) and (oe is None or oe[0] > tag)
-        nsub = live_subs_after(tag)
-        if not outer_live and nsub == 0 and (outputs is False or tag > 0):
-            if st["live_after"] and (not outputs or any(True for _ in st["live_after"])):
-                if outputs and not ivs:
-                    continue
-                return (f"source subscriptions {sorted(st['live_after'])} still open after input {tag} although the "
-                        f"outer subscription ended ({oe}) and no window subscription is live")
-            if st["timers_after"]:
-                return f"timers {sorted(st['timers_after'])} still pending after input {tag} although everything ended"
-    return None
